@@ -2,8 +2,8 @@ SPECIFICATION Spec
 CONSTANTS
   Tier = "quick"
   MaxN = 2
-  UaVals = {0, 1, 3}
-  PvVals = {0, 1, 3}
-  ChpVals = {0, 2}
+  UaVals = {0, 1, 2, 3}
+  PvVals = {0, 1, 2, 3}
+  ChpVals = {0, 1, 2}
 INVARIANTS Check CheckK CheckPrio CheckRer CheckStrip
 CHECK_DEADLOCK FALSE
